@@ -42,13 +42,17 @@ theorem psInv_ok_iff (ps : PS) : PsInv.ok ps ↔ PSok ps := Iff.rfl
 def RealGood (b : Board) : Prop := Board.valid b = true
 
 /-- a component record that agrees with the real one in every field the laws speak about (the
-    pruning predicates and the evaluation are free): `realCompWith K cs`, and `realCompG K cs`
-    (Proofs/SearchRealScore.lean), the same record with the null-move guard. -/
+    pruning predicates and the evaluation are free): `realCompWith K cs`, `realCompG K cs`
+    (Proofs/SearchRealScore.lean), the same record with the null-move guard, and `realCompP K cs P`
+    (Model/SearchRealP.lean), the record of the spsa build for ANY parameter vector.  Of `failHigh` the
+    laws need only that it keeps the state invariant and does not touch the table (`FailHigh` with any
+    history parameters does: the gravity bound holds for every bonus), so the field is not an equation. -/
 structure IsReal (K : Keys) (c : Comp PS Pick) : Prop where
   keys : c.keys = K
   ttProbe : c.ttProbe = ttProbe
   ttStore : c.ttStore = ttStore
-  failHigh : c.failHigh = failHigh
+  failHigh_ok : ∀ ps d b p hs, PSok ps → PSok (c.failHigh ps d b p hs)
+  failHigh_tt : ∀ ps d b p hs, (c.failHigh ps d b p hs).tt = ps.tt
   pickInit : c.pickInit = pickInit
   pickNext : c.pickNext = pickNext
   setWeight : c.setWeight = setWeight
@@ -56,7 +60,7 @@ structure IsReal (K : Keys) (c : Comp PS Pick) : Prop where
   nextGen : c.nextGen = nextGen
 
 theorem isReal_realCompWith (K : Keys) (cs : Eval.CoeffSet Int) : IsReal K (realCompWith K cs) :=
-  ⟨rfl, rfl, rfl, rfl, rfl, rfl, rfl, rfl, rfl⟩
+  ⟨rfl, rfl, rfl, fun _ d b p hs h => failHigh_ok h d b p hs, fun _ _ _ _ _ => rfl, rfl, rfl, rfl, rfl, rfl⟩
 
 variable {K : Keys} {c : Comp PS Pick} (hc : IsReal K c)
 include hc
@@ -139,7 +143,7 @@ theorem laws_of_isReal : Laws c RealGood where
     rcases hm with h | h
     · rw [h]; decide
     · exact Props.C05.gen_lt hg h
-  ok_failHigh := fun _ d b p hs hok => by rw [hc.failHigh]; exact failHigh_ok hok d b p hs
+  ok_failHigh := fun ps d b p hs hok => hc.failHigh_ok ps d b p hs hok
   ok_nextGen := fun _ hok => by rw [hc.nextGen]; exact nextGen_ok hok
 
 omit hc
